@@ -14,6 +14,8 @@ package tape
 //@   at call OpenFile#3 assert [append-flag] arg_flag & 1024 == 1024 && arg_flag & 512 == 0
 //@   at call OpenFile#4 assert [append-flag-tape] arg_flag & 1024 == 1024 && arg_flag & 512 == 0
 //@   at call GoToEndOfTape#1 assert [tape-to-end-unless-overwrite] !overwrite
+//@   property C16
+//@   at call OpenFile#3 assert [appends-only-after-a-complete-record] overwrite || tapeTailComplete
 
 //@ func (*TapeManager).GetWriter
 //@   property C10 also C11
